@@ -144,6 +144,9 @@ def _gen_callout(rng, shape=None):
     if mru is not None:
         c['mru'] = dict(flags_hi=rng.choice([0, 0x10, 0xF0]), res=rbytes(rng, 4),
                         items=[dict(prio=rbytes(rng, 4), id=rbytes(rng, 4)) for _ in range(mru)])
+    if rng.random() < .2:
+        # the substructures in another order than FRU identity, PCE identity, MRU
+        c['order'] = rng.choice([['ID', 'MR', 'PE'], ['PE', 'ID', 'MR'], ['MR', 'ID', 'PE'], ['PE', 'MR', 'ID'], ['MR', 'PE', 'ID']])
     return c
 
 
